@@ -12,10 +12,12 @@ import H3.Model.Varint
     or one of `cs` are both accepted).  `may` is used for exactly these (reading R-04b, DESIGN.md
     section 9): the rules of *server push*, which the property's text does not name and h3 does not
     implement — a push stream (§6.2.2, §4.6), CANCEL_PUSH (§7.2.3), a MAX_PUSH_ID that goes down
-    (§7.2.7) —, the WebTransport signal value used as a frame type on a control stream, and the
+    (§7.2.7) —, the WebTransport signal value used as a frame type on a control stream, the
+    closing of the peer's QPACK encoder / decoder stream (`qpackClosed`; RFC 9204 §4.2 demands
+    H3_CLOSED_CRITICAL_STREAM, the property's text names only the control stream: reading R-04e) and the
     endpoint's own streams before it has to write on them (`ownStopped`).  `verdictRfc` below is the
     table with the RFC's demands in those places too; `C04_rfc_table_differs_only_on_push` says that
-    the two differ nowhere else.  The identifier rules of GOAWAY (§5.2, §7.2.6; C08 names them) are
+    the two differ nowhere else (server push and `qpackClosed`).  The identifier rules of GOAWAY (§5.2, §7.2.6; C08 names them) are
     demanded (`must`). -/
 namespace H3.Spec.ControlRules
 open H3.Varint
@@ -102,6 +104,11 @@ inductive Ev where
   /-- a unidirectional stream closed or reset before its header was complete -/
   | closedEarly
   | ctl (e : CtlEv)
+  /-- the peer's QPACK encoder or decoder stream — a stream whose header announced type 0x02 / 0x03
+      and that was accepted as such — is closed (FIN) or reset (RFC 9204 §4.2: "Closure of either
+      unidirectional stream type MUST be treated as a connection error of type
+      H3_CLOSED_CRITICAL_STREAM") -/
+  | qpackClosed
 deriving Repr, DecidableEq
 
 structure St where
@@ -189,8 +196,12 @@ def verdict (server : Bool) (s : St) : Ev → Verdict × St
     -- a frame can only be seen on a control stream that exists
     if s.control then (if s.settings then laterFrame server s e else firstFrame s e)
     else (.ok, s)
+  -- RFC 9204 §4.2 demands H3_CLOSED_CRITICAL_STREAM; the property's text names the closing or
+  -- resetting of the *control* stream only (reading R-04e): no error or that error (`verdictRfc`
+  -- has the RFC's demand)
+  | .qpackClosed => (.may [H3_CLOSED_CRITICAL_STREAM], s)
 
-/-! ### RFC 9114 by the letter where the property is silent: server push
+/-! ### RFC 9114 / RFC 9204 by the letter where the property is silent: server push, QPACK streams closed
 
     For an endpoint that never sends MAX_PUSH_ID and never PUSH_PROMISE (h3 has no API for either):
     §6.2.2 "Only servers can push; if a server receives a client-initiated push stream, this MUST be
@@ -202,6 +213,8 @@ def verdict (server : Bool) (s : St) : Ev → Verdict × St
     ID that has not yet been mentioned by a PUSH_PROMISE frame, this MUST be treated as a connection
     error of type H3_ID_ERROR"; §7.2.7 "receipt of a MAX_PUSH_ID frame that contains a smaller value
     than previously received MUST be treated as a connection error of type H3_ID_ERROR".
+    RFC 9204 §4.2 (the peer's QPACK encoder / decoder stream): "Closure of either unidirectional
+    stream type MUST be treated as a connection error of type H3_CLOSED_CRITICAL_STREAM".
     Engine `ctlrfc` judges with this table; the check reports where the code departs from it as a
     NOTE (not a violation of C04). -/
 
@@ -215,6 +228,7 @@ def laterFrameRfc (server : Bool) (s : St) : CtlEv → Verdict × St
 
 def verdictRfc (server : Bool) (s : St) : Ev → Verdict × St
   | .stream .push => (if server then .must [H3_STREAM_CREATION_ERROR] else .must [H3_ID_ERROR], s)
+  | .qpackClosed => (.must [H3_CLOSED_CRITICAL_STREAM], s)
   | .ctl e =>
     if s.control && s.settings then laterFrameRfc server s e else verdict server s (.ctl e)
   | e => verdict server s e
